@@ -186,6 +186,14 @@ Theorem C30_update_addrs_does_not_end_backoff : forall b fresh, ast b = 3 \/ ast
 Proof. exact upd_addrs_not_connecting. Qed.
 Print Assumptions C30_update_addrs_does_not_end_backoff.
 
+(* READY only with a live transport: a connection that is lost (GOAWAY / drop) after the server
+   preface but before createTransport has installed the transport takes the CONNECTING
+   sub-channel to IDLE with no connect goroutine left; READY is not reported for it *)
+Theorem C30_connection_lost_while_connecting_goes_idle : forall b, phase b = 1 ->
+  ast (bstep b BDialLost) = 0 /\ phase (bstep b BDialLost) = 0 /\ tr (bstep b BDialLost) = tr b.
+Proof. exact dial_lost_goes_idle. Qed.
+Print Assumptions C30_connection_lost_while_connecting_goes_idle.
+
 Theorem C30_subchannel_shutdown_final : forall h l o, let b := brun (stBi h) l in ast b = 4 -> ast (bstep b o) = 4.
 Proof. exact shutdown_is_final. Qed.
 Print Assumptions C30_subchannel_shutdown_final.
